@@ -322,14 +322,16 @@ Section Guards.
   (* nillable (xsi:nil): inside the fragment for fields of a simple type (scalar or list, no tokens, no value
      default) HOLDING VALUES WITH A NON-EMPTY TEXT (fits): the serializer adds xsi:nil="true" to falsy values
      (0, false), the writer drops it again because the element has content; None in a nillable scalar field is
-     written <f xsi:nil="true"/> and read back as None.  An empty text, a class-typed nillable field or a
-     nillable class are refuted (C01_nil_conflation_refuted, finding C01-F1) *)
+     written <f xsi:nil="true"/> and read back as None.  A class-typed nillable field and a nillable class
+     are inside when the instance HAS CONTENT (has_content below: the serializer always adds xsi:nil="true",
+     the writer drops it because the element has content); None in a class-typed nillable field is inside
+     when the class itself is not nillable.  An empty text and an instance without content in a nillable
+     field are refuted (C01_nil_conflation_refuted, finding C01-F1) *)
   Definition wf_elem (v : xvar) : bool :=
     v_is KElement v && var_common v && nonempty_s (v_qname v) && wrapper_ok v
     && match var_type v with
        | Some (TClass k) =>
-           negb (v_nillable v)
-           && opt_eqb N.eqb (v_clazz v) (Some k)
+           opt_eqb N.eqb (v_clazz v) (Some k)
            && match v_tokens_factory v with None => true | Some _ => false end
            && match v_factory v with
               | None => match v_default v with DNone => true | _ => false end
@@ -406,7 +408,7 @@ Section Guards.
                                               | Some w => match assoc w (m_wrappers m) with Some _ => true | None => false end
                                               | None => true
                                               end) (snd e)) (m_elements m)
-    && negb (m_nillable m) && negb (m_mixed_content m)
+    && negb (m_mixed_content m)
     (* the element table: one field per name (qnames of element fields pairwise distinct) *)
     && forallb (fun e => match snd e with [v] => str_eqb (v_qname v) (fst e) && wf_elem v | _ => false end) (m_elements m)
     && distinct_s (map fst (m_elements m))
@@ -542,10 +544,38 @@ Section Guards.
        | _, _ => false
        end.
 
+  Definition field_of (fs : list (str * value)) (v : xvar) : value :=
+    match assoc (v_name v) fs with Some x => x | None => VNone end.
+
+  (* the element written for an instance is not empty: some field yields a child element (a value that
+     is not None - or None in a nillable field - and not an empty list; an empty wrapped list is not
+     counted) or the Text field holds a value.  Asked of instances in a nillable position (nillable field
+     or nillable class): the serializer marks them xsi:nil="true" whatever they hold, the writer drops the
+     mark only when the element has content; without content the parser reads None for a nillable field
+     (refuted: C01_nil_conflation_refuted) *)
+  Definition emits (v : xvar) (x : value) : bool :=
+    match x with
+    | VNone => v_nillable v
+    | VList _ [] => false
+    | _ => true
+    end.
+  Definition has_content (o : value) : bool :=
+    match o with
+    | VObj cl fs =>
+        match u_meta u cl with
+        | Some m => existsb (fun v => emits v (field_of fs v)) (get_element_vars m)
+        | None => false
+        end
+    | _ => false
+    end.
+  Definition cls_nillable (k : cls) : bool :=
+    match u_meta u k with Some m => m_nillable m | None => false end.
+
   Definition fits_item (rec : cls -> value -> bool) (v : xvar) (x : value) : bool :=
     match vtype v with
     | TClass k => match x with
-                  | VObj cl' _ => if N.eqb cl' k then rec k x else derived_ok v k cl' && rec cl' x
+                  | VObj cl' _ => (negb (v_nillable v) || has_content x)
+                                  && (if N.eqb cl' k then rec k x else derived_ok v k cl' && rec cl' x)
                   | _ => false
                   end
     | TQName => match x with VP p => qleaf_ok p | _ => false end
@@ -561,7 +591,13 @@ Section Guards.
     match v_factory v, v_tokens_factory v with
     | None, None =>
         match x with
-        | VNone => match v_default v with DNone => true | _ => false end
+        | VNone => match v_default v with
+                   | DNone => match vtype v with
+                              | TClass k => negb (v_nillable v && cls_nillable k)
+                              | _ => true
+                              end
+                   | _ => false
+                   end
         | _ => fits_item rec v x
         end
     | Some f, None =>
@@ -581,9 +617,6 @@ Section Guards.
         end
     end.
 
-  Definition field_of (fs : list (str * value)) (v : xvar) : value :=
-    match assoc (v_name v) fs with Some x => x | None => VNone end.
-
   (* fuel = nesting depth of the instance *)
   Fixpoint fits (n : nat) (cl : cls) (o : value) {struct n} : bool :=
     match n, o with
@@ -593,6 +626,7 @@ Section Guards.
            | None => false
            | Some m =>
                list_eqb str_eqb (map fst fs) (map v_name (get_all_vars m))
+               && (negb (m_nillable m) || has_content o)
                && forallb (fun e => fits_attr (snd e) (field_of fs (snd e))) (m_attributes m)
                && forallb (fun e => forallb (fun v => fits_elem (fits k) v (field_of fs v)) (snd e)) (m_elements m)
                && match m_text m with Some t => fits_text t (field_of fs t) | None => true end
